@@ -5,11 +5,20 @@
 (* recorded by wrapping the integrand of the real Integrate(f,a,b,eps,d).  *)
 (* The recorder maps every pair of successive evaluations to the frame     *)
 (* whose quarter points they are (k = -1 if there is none).                *)
-(* The trace specification re-uses the frame machine of Simpson.tla: each  *)
-(* Panel must be enabled in the state reached so far, and Return checks    *)
-(* the clauses of the property that quantify over the whole execution.     *)
+(* S (verdict, CHECK_A = FALSE): what the statement says and nothing else  *)
+(* - every evaluation inside the closed interval, at most 2^(depth+2)+1 of *)
+(* them, zero for equal limits, exact negation, sign of epsilon, accuracy. *)
+(* The statement fixes neither the order of the evaluations nor which      *)
+(* abscissae are used.                                                     *)
+(* A (CHECK_A = TRUE, model drift only): the trace re-uses the frame       *)
+(* machine of Simpson.tla: the three start evaluations are lo, hi and a    *)
+(* point between, in this order; each Panel must be enabled in the state   *)
+(* reached so far (quarter points of a pending frame, lower one first);    *)
+(* the count is odd and accounted for by the panels; every refined panel   *)
+(* has both halves; equal limits do not evaluate at all.                   *)
 (***************************************************************************)
 EXTENDS Simpson, Sequences, TLC, Json, IOUtils
+CONSTANT CHECK_A
 VARIABLES depth, orient, visited, l
 vars == <<depth, orient, visited, l>>
 Log == ndJsonDeserialize(IOEnv.TRACE)
@@ -19,21 +28,24 @@ Ev(e) == l <= Len(Log) /\ Log[l].e = e /\ l' = l + 1
 TCall == /\ Ev("Call")
          /\ depth' = Log[l].depth /\ orient' = Log[l].orient /\ visited' = {}
 TPanel == /\ Ev("Panel")
-          /\ orient # 0                                    \* equal limits: the integrand is never evaluated
-          /\ LET f == <<Log[l].k, Log[l].j>> IN
-             /\ CanPanel(visited, depth, f)                \* a half of an evaluated panel, once, within the depth limit
-             /\ Log[l].inb                                 \* both abscissae inside the closed interval
-             /\ visited' = visited \cup {f}
+          /\ Log[l].inb                                    \* S: both abscissae inside the closed interval
+          /\ IF CHECK_A
+             THEN /\ orient # 0                            \* A: equal limits: the integrand is never evaluated
+                  /\ LET f == <<Log[l].k, Log[l].j>> IN
+                     /\ CanPanel(visited, depth, f)        \* A: a half of an evaluated panel, once, within the depth limit
+                     /\ visited' = visited \cup {f}
+             ELSE UNCHANGED visited
           /\ UNCHANGED <<depth, orient>>
 TReturn == /\ Ev("Return")
            /\ LET ev == Log[l] IN
-              /\ ev.startInb                               \* the three start evaluations are lo, hi and a point between
-              /\ IF orient = 0 THEN ev.n = 0 /\ ev.zero    \* equal limits give zero without evaluating
-                 ELSE /\ ev.n <= CountBound(depth)         \* at most 2^(depth+2)+1 evaluations
-                      /\ ev.n % 2 = 1 /\ ev.n >= 5
+              /\ ev.allinb                                 \* S: every evaluation inside the closed interval
+              /\ (CHECK_A => ev.startInb)                  \* A: the three start evaluations are lo, hi and a point between
+              /\ IF orient = 0 THEN ev.zero /\ (CHECK_A => ev.n = 0)    \* S: equal limits give zero (A: without evaluating)
+                 ELSE /\ ev.n <= CountBound(depth)         \* S: at most 2^(depth+2)+1 evaluations
+                      /\ (CHECK_A => ev.n % 2 = 1 /\ ev.n >= 5)
                       \* executions with thousands of panels are logged without their Panel events (ev.big)
-                      /\ (~ev.big => /\ ev.n = Evaluations(visited)       \* every evaluation is accounted for by a panel
-                                     /\ Closed(visited))                  \* both halves of every refined panel were integrated
+                      /\ ((CHECK_A /\ ~ev.big) => /\ ev.n = Evaluations(visited)       \* A: every evaluation is accounted for by a panel
+                                                  /\ Closed(visited))                  \* A: both halves of every refined panel were integrated
               /\ ev.swapneg                                \* swapping the limits negates the result exactly
               /\ ev.epssame                                \* the sign of epsilon is irrelevant
               /\ (ev.cls = "quintic" => ev.errq <= 1)      \* exact on quintics for any epsilon and depth (unit: rounding)
